@@ -12,14 +12,19 @@
   `Failed undo search`, `undo failed`, `Undo failed`, `Inc failed`, `Failed partial clear`,
   `Exceeding retries`) are unreachable sequentially.
 
-  PARTIAL: the upper-level sites (`Unreserve failed`, `unreserve invalid class`, counter
-  asserts, `No locals for class`, slice indexing by tree/slot) need the upper invariant
-  (`UpperInv`), in progress; until then carried by the sequential correspondence with panic
-  capture over all configurations (zero frames, zero-slot classes, zeroed policy, every init
-  mode, change_tree naming any tree).
+  `history_never_panics` — the upper level: after `Trees::new`, **every sequential history** of
+  valid-parameter calls (get of any order / target / slot, put, drain, change_tree naming any
+  tree, stats) runs without panic: all upper-level sites (`Unreserve failed`, `unreserve invalid
+  class`, counter asserts, `No locals for class`, `Invalid class`, bit-field setter bounds, slice
+  indexing by tree/slot, the `unwrap`s after `try_update`) are unreachable, for every
+  configuration satisfying `CfgOk` (class ids < 8, ordered policy = all policies of the
+  repository incl. zero-slot classes and the zeroed policy, tree size < 2^19).
+
+  Remaining (carried by the correspondence): the initialisation programs of the lower allocator
+  for every frame count (C06), `tree_stats`/`validate`/`stats_at(order 0)`/`is_free`, frame
+  count 0, and configurations outside `CfgOk` (none in the repository).
 -/
-import LLFreeV.Proofs.LowerGet
-import LLFreeV.Props.C08
+import LLFreeV.Proofs.UpperInit
 namespace LLFree.C09
 open LLFree
 
@@ -48,5 +53,22 @@ theorem lower_get_total (c : Cfg) (ok : GeomOk16 c.geom) (m : Mem) (inv : LowerI
 /-- the argument check never panics (classes 0..7) and touches no memory -/
 theorem check_total (c : Cfg) (m : Mem) (frame : Nat) (r : Request) (hcls : r.cls < 8) :
     ∃ x, runSolo (check c frame r) m = (m, .ok x) := ⟨_, C08.check_spec c m frame r hcls⟩
+
+
+/-- **No call of any sequential history panics** (upper level): from a lower allocator satisfying
+    its invariant with empty slots, `Trees::new` followed by any list of valid-parameter calls
+    (allocations of any order with/without target and slot, frees, drains, tree changes naming any
+    tree, exact statistics) runs to completion; `Runs` means the outcome is not a panic. -/
+theorem history_never_panics (c : Cfg) (ok : CfgOk c) (calls : List Call) (hvalid : ∀ x ∈ calls, x.valid c) (m : Mem)
+    (inv : LowerInv c m) (hsz : m.trees.size = c.ntrees) (hss : m.slots.size = c.nslots) (habs : ∀ s, SlotAbsent m s) :
+    Runs m (do Trees.init c; runCalls c calls) (fun _ m' => ∃ H', UpperInv0 c H' m') :=
+  calls_safe_from_init ok calls hvalid m inv hsz hss habs
+
+/-- in terms of the sequential semantics: the outcome of the whole history is `ok` -/
+theorem history_outcome_ok (c : Cfg) (ok : CfgOk c) (calls : List Call) (hvalid : ∀ x ∈ calls, x.valid c) (m : Mem)
+    (inv : LowerInv c m) (hsz : m.trees.size = c.ntrees) (hss : m.slots.size = c.nslots) (habs : ∀ s, SlotAbsent m s) :
+    ∃ m', runSolo (do Trees.init c; runCalls c calls) m = (m', .ok ()) := by
+  obtain ⟨m', _, h, _⟩ := history_never_panics c ok calls hvalid m inv hsz hss habs
+  exact ⟨m', h⟩
 
 end LLFree.C09
